@@ -254,7 +254,69 @@ def parse_fmt(lit):
     return segs
 
 
-def make_r_fmt(disp="vfmt_disp", lit="vfmt_lit", hex2="vfmt_hex2_upper", wmap=None, merge=False):
+def lit_tainted_locals(text):
+    """names of locals whose value is (or derives from) a STRING LITERAL chosen in an initializer: `let kw = match x { A => "UNION", .. };`,
+    `let d = if c { Some("ASC") } else { None };`, `if let Some(dir) = d { .. }` ...  An event-trace writer records literal text as one
+    event per written chunk: text that reaches the writer through such a local is split differently from the specification although the
+    characters written are the same - the abstraction cannot follow it (unsupported construct, never a violation)."""
+    code = rl.code_toks(rl.lex(text))
+    binds = []   # (names, init token range)
+    k = 0
+    while k < len(code):
+        t = code[k]
+        if t.kind == "ident" and t.text == "let":
+            j, depth, pat = k + 1, 0, []
+            while j < len(code) and not (code[j].text == "=" and depth == 0 and code[j + 1].text != "=" and code[j - 1].text not in ("=", "!", "<", ">")):
+                if code[j].text in rl.OPEN:
+                    depth += 1
+                elif code[j].text in rl.CLOSE:
+                    depth -= 1
+                if code[j].text in (";", "{") and depth <= 0 and code[j].text == ";":
+                    break
+                pat.append(code[j])
+                j += 1
+            if j < len(code) and code[j].text == "=":
+                # pattern variables: lower-case identifiers that are not paths / constructors / type ascriptions
+                names, colon = [], False
+                for q, pt in enumerate(pat):
+                    if pt.text == ":" and not (q + 1 < len(pat) and pat[q + 1].text == ":") and not (q > 0 and pat[q - 1].text == ":"):
+                        colon = True
+                    if pt.kind == "ident" and not colon and pt.text not in ("mut", "ref") and pt.text[0].islower() and not (q + 1 < len(pat) and pat[q + 1].text in ("(", ":") and pat[q + 1].text == "("):
+                        names.append(pt.text)
+                e, depth = j + 1, 0
+                while e < len(code):
+                    if code[e].text in rl.OPEN:
+                        if code[e].text == "{" and depth == 0 and k > 0 and code[k - 1].text in ("if", "while"):
+                            break
+                        depth += 1
+                    elif code[e].text in rl.CLOSE:
+                        if depth == 0:
+                            break
+                        depth -= 1
+                    elif code[e].text == ";" and depth == 0:
+                        break
+                    e += 1
+                binds.append((names, j + 1, e))
+                k = j + 1
+                continue
+        k += 1
+    tainted = set()
+    changed = True
+    while changed:
+        changed = False
+        for names, a, b in binds:
+            if all(n in tainted for n in names) or not names:
+                continue
+            init = code[a:b]
+            if any(t.kind == "str" for t in init) or any(t.kind == "ident" and t.text in tainted for t in init):
+                for n in names:
+                    if n not in tainted:
+                        tainted.add(n)
+                        changed = True
+    return tainted
+
+
+def make_r_fmt(disp="vfmt_disp", lit="vfmt_lit", hex2="vfmt_hex2_upper", wmap=None, merge=False, litvar=None):
     """R-fmt: write!(W, "fmt", args..).unwrap()  ->  { vfmt_lit(W, "..."); vfmt_disp(W, arg); ... }
     Trusted: std::fmt writes the segments in order (DESIGN 3.2).
     merge=True (units whose writer abstraction records literal CHUNKS): directly adjacent literal writes to the same writer are
@@ -273,7 +335,16 @@ def make_r_fmt(disp="vfmt_disp", lit="vfmt_lit", hex2="vfmt_hex2_upper", wmap=No
             ctx.app("R-fmt-merge", "%d pair(s) of adjacent literal writes" % n, "one literal write each")
         return text
 
+    if litvar is None:
+        litvar = merge and lit == "vfmt_lit"     # event-trace writers (render, schema statements, writer): chunk-sensitive
+
     def r_fmt(text, ctx):
+        tainted = lit_tainted_locals(text) if litvar else set()
+        if tainted:
+            # `w.write_str(local)` / `w.push_str(local)` of such a local
+            m = re.search(r"\.(?:write_str|push_str)\(\s*&?\s*(\w+)\s*\)", text)
+            if m and m.group(1) in tainted:
+                raise Unsupported("literal text reaches the writer through the local `%s` (chosen earlier, written later): outside the event abstraction's reach" % m.group(1))
         while True:
             toks = rl.lex(text)
             code = rl.code_toks(toks)
@@ -316,6 +387,8 @@ def make_r_fmt(disp="vfmt_disp", lit="vfmt_lit", hex2="vfmt_hex2_upper", wmap=No
                     else:
                         e = rest[ai]
                         ai += 1
+                    if litvar and re.fullmatch(r"\*?&?\s*(\w+)", e.strip()) and re.fullmatch(r"\*?&?\s*(\w+)", e.strip()).group(1) in tainted:
+                        raise Unsupported("literal text reaches the writer through the local `%s` (chosen earlier, written later): outside the event abstraction's reach" % e.strip())
                     if s[2] == "":
                         calls.append("%s(%s, &(%s));" % (disp, w, e))  # format_args! borrows its arguments
                     elif s[2] == "02X":
